@@ -184,6 +184,19 @@ def instantiate(old: str, new: str, segment: str) -> tuple[str, str] | None:
     if kind_o != kind_s:
         return None
     env: dict[str, Any] = {}
+
+    def schematic_display(n: Any) -> bool:
+        return isinstance(n, (ast.List, ast.Tuple, ast.Set)) and n.elts and all(isinstance(e, ast.Name) and e.id in PLACEHOLDERS for e in n.elts)
+
+    if kind_o == "expr" and schematic_display(pat) and type(seg) is type(pat):
+        # `[x, y, z]` in a message stands for a display of any length (FURB109)
+        try:
+            kind_n, newt = _parse_fragment(new)
+        except SyntaxError:
+            return None
+        if kind_n == "expr" and schematic_display(newt):
+            out_node = type(newt)(elts=list(seg.elts), ctx=ast.Load())
+            return "expr", ast.unparse(ast.fix_missing_locations(out_node))
     try:
         _unify(pat, seg, env)
     except NoMatch:
